@@ -166,6 +166,24 @@ def ro_workload(ver, maxbuf):
     return {"ver": ver, "maxbuf": maxbuf, "mode": "ro_faults", "streams": streams, "ops": ops}
 
 
+def ro_open_workload(ver, maxbuf):
+    """Faults while a file of SEVERAL FAT sectors is opened (version 3: more than 64 KiB), then reads at both ends of the long
+    stream and of a short one whose mini sectors lie behind it: a table that was assembled wrongly because a failed read was
+    skipped shows as wrong bytes, not as an error."""
+    f = gens.Fill()
+    rng = random.Random(11)
+    streams = [{"name": "a", "runs": f.runs(rng, 70000)}, {"name": "bar", "runs": f.runs(rng, 3000)}, {"name": "c", "runs": f.runs(rng, 700)}]
+    ops = [{"op": "open"}, {"op": "open"}, {"op": "walk"}]
+    for name, seeks in (("a", [0, 30000, 66000, 69000]), ("bar", [0, 2000]), ("c", [0])):
+        ops += [{"op": "open_stream", "name": name}, {"op": "open_stream", "name": name}]
+        for d in seeks:
+            ops += [{"op": "seek", "whence": "start", "d": d, "sym": ""}, {"op": "read", "n": 900}, {"op": "position"},
+                    {"op": "read", "n": 900}, {"op": "position"}]
+        ops += [{"op": "seek", "whence": "start", "d": 0, "sym": ""}, {"op": "read_to_end"}, {"op": "close"}]
+    # only the positions inside the two `open` calls are swept
+    return {"ver": ver, "maxbuf": maxbuf, "mode": "ro_faults", "streams": streams, "ops": ops, "fault_ops": [0, 1]}
+
+
 def rw_remove_workload(ver, maxbuf):
     """Streams are removed (each call issued twice: a failed release is retried), then two new
     streams are written into the released space and flushed; every stream that no failed call
